@@ -184,7 +184,7 @@ PLAN = {
              "return (outside the fragments). A device model would be a different technique family.",
     ),
     "C10": dict(
-        verus=["group_cycle", "wrapped", "pdi_config"], kani=["summaries"], level="proof",
+        verus=["group_cycle", "wrapped", "pdi_config", "state_wait"], kani=["summaries"], level="proof",
         claim="wait_for_state extracted WHOLE with its timeout scope made explicit (rule R18): Ok only if one sweep found every member in the requested state, and the polling "
               "loop lies inside the state-transition timeout scope with the remaining time as its termination measure (a stalled device ends in the timeout error, not in an "
               "endless loop); transition_to's request loop + wait as one fragment: Ok only if the request was written to and acknowledged by EVERY member and every member then "
@@ -195,7 +195,8 @@ PLAN = {
               "devices (the debug_assert is proved); push_state_checks sends the reads in group order; the checked exchanges it rests on are the C11 contracts",
         note="network = echo-shape assumption (a reply has the datagram boundaries of the request; contents arbitrary). Time: assumption A-TIME-1 (an await inside a timeout scope that "
              "suspends takes positive time; TimeoutFuture::poll tests its timer on every resume) - real time is not modelled. 'To no device outside the group' is structural "
-             "(the loop runs over the group's own list; effects are observed through positive predicates). NOT decided: MainDevice::wait_for_state (BRD variant); summaries for "
+             "(the loop runs over the group's own list; effects are observed through positive predicates). MainDevice::wait_for_state (broadcast read expecting exactly n answers, error bit => "
+             "Err(StateTransition), under the state-transition timeout) and SubDeviceRef::wait_for_state are extracted whole too (unit state_wait). NOT decided: summaries for "
              "groups larger than 3",
     ),
     "C11": dict(
